@@ -336,6 +336,10 @@ class Neighbor:
             and self.capability == other.capability
             and self.session.auto_discovery == other.session.auto_discovery
             and self.families() == other.families()
+            # the families of the ADD-PATH and extended next hop capabilities are part of our OPEN: a reload which
+            # changes them has to open a new session, it was taken for a change of routes only
+            and sorted(self.addpaths()) == sorted(other.addpaths())
+            and sorted(self.nexthops()) == sorted(other.nexthops())
         )
 
     def __ne__(self, other: object) -> bool:
